@@ -80,7 +80,20 @@ Check (C15_growth_refused :
 Check (C15_instances :
   oracle_ok (c_ser c_fx) (c_de c_fx) (c_wf c_fx) /\ oracle_ok (c_ser c_bv) (c_de c_bv) (c_wf c_bv) /\
   oracle_ok (c_ser c_st) (c_de c_st) (c_wf c_st) /\ oracle_ok (c_ser c_ns) (c_de c_ns) (c_wf c_ns) /\
-  prog_ok PID_A 8 DISC_FX /\ prog_ok PID_A 8 DISC_BV /\ prog_ok PID_B 1 DISC_ST /\ prog_ok PID_C 4 DISC_NS).
+  oracle_ok (c_ser c_sb) (c_de c_sb) (c_wf c_sb) /\
+  prog_ok PID_A 8 DISC_FX /\ prog_ok PID_A 8 DISC_BV /\ prog_ok PID_B 1 DISC_ST /\ prog_ok PID_C 4 DISC_NS /\
+  prog_ok PID_A 8 DISC_SB).
+Check (C15_noncanonical_image :
+  let a := mkB PID_A true (DISC_SB ++ [4; 0; 0; 0; 9; 2; 9; 5]) 0 1000000 in
+  let l := [mkInstr false false [ORead; OSerialize; OReload];
+            mkInstr true false [];
+            mkInstr false false [ORead]] in
+  acct_ok a /\
+  map (fun r => (r_tfa r, r_end r, b_data (r_acct r)))
+      (exec_seq (list Z) (c_ser c_sb) (c_de c_sb) true PID_A 8 DISC_SB a l) =
+  [ (Ok (Some [2; 5; 9]), IDone (Some [2; 5; 9]), DISC_SB ++ [4; 0; 0; 0; 9; 2; 9; 5]);
+    (Ok (Some [2; 5; 9]), IDone (Some [2; 5; 9]), DISC_SB ++ [3; 0; 0; 0; 2; 5; 9]);
+    (Ok (Some [2; 5; 9]), IDone (Some [2; 5; 9]), DISC_SB ++ [3; 0; 0; 0; 2; 5; 9]) ]).
 Check (C15_persist_unrepaired_refuted :
   exists (a : bacct) (i : instr (list Z)) (v : list Z),
     acct_ok a /\ instr_wf (list Z) (c_wf c_bv) i /\
@@ -101,4 +114,5 @@ Print Assumptions C15_size_change_ok.
 Print Assumptions C15_write_back_size.
 Print Assumptions C15_growth_refused.
 Print Assumptions C15_instances.
+Print Assumptions C15_noncanonical_image.
 Print Assumptions C15_persist_unrepaired_refuted.
